@@ -10,9 +10,9 @@ systems with every sharing pattern, as single and as repeated failures, interlea
 """
 import random
 
-from .. import efx, gen, history, tlc, tracecheck
+from .. import efx, gen, history, simcheck, tlc, tracecheck
 from ..common import work_dir, cleanup, seed_from_env, MachineryError
-from . import c01
+from . import c01, c05
 
 
 def failing_edits(ns, rng, model):
@@ -140,6 +140,32 @@ def run(tier, out):
             label = e.get("label") or (prevf[-1]["label"] if prevf else "?")
             out.violation(f"{clause}:{label}", {"spec_says": data[:1500], "seed": e.get("seed"), "event": {k: e.get(k) for k in
                           ("ev", "label", "edit_kind", "exc", "edit")}})
+        # identity level: undated updates, accepted and refused, against EFSim's Update action (all or nothing, closed graph)
+        for st in ("FALSE",):
+            resm = tlc.run_tlc(wd, "EFSim", c05.model_cfg(st), workers=4, timeout=900)
+            tlc.require_clean(resm, "EFSim")
+            out.add_tlc(resm, "EFSim protocol incl. undated updates (AllOrNothing, GraphClosed)", exhaustive=resm.completed)
+            if resm.error:
+                out.violation("model:" + resm.error, {"tlc_output_tail": resm.out[-4000:]})
+        pevents, n_plain = [], {"updated": 0, "raised": 0}
+        for k, seed in enumerate(range(base + 9000, base + 9000 + (16 if tier == "quick" else 300))):
+            evs = simcheck.plain_history(ns, 5000 + k, seed)
+            pevents += evs
+            for e in evs:
+                if e["ev"] == "PlainUpdate":
+                    n_plain[e["outcome"]] += 1
+                    out.nontrivial.add(("plain-update", seed, e["seq"]))
+        ptrace = wd + "/c15_plain.ndjson"
+        tracecheck.write_trace(ptrace, pevents, keys=c05.KEYS + ("live_toks",))
+        pf, _pn, res3 = tracecheck.validate(wd, "Trace_Sim", ptrace, {"Focus": tlc.tla_str("C15")}, timeout=3000)
+        out.add_tlc(res3, "Trace_Sim on undated updates (identities and graph)")
+        out.evaluations += len(pevents)
+        pby = {(e["tid"], e["seq"]): e for e in pevents}
+        for t, s, clause, data in pf:
+            e = pby.get((t, s), {})
+            out.violation(f"{clause}:{e.get('flavour')}", {"spec_says": data[:1500], "seed": e.get("seed"), "flavour": e.get("flavour"),
+                                                          "outcome": e.get("outcome"), "exc": e.get("exc")})
+        out.extra["undated_updates_projected_at_identity_level"] = n_plain
         for e in [x for x in events if x["ev"] in ("Failed", "Recovered")][:6]:
             out.sample({k: e.get(k) for k in ("ev", "seed", "label", "exc") if k in e})
         out.extra.update({"rule": "a case = one failing edit on a seeded real system (single or repeated), its recovery and the "
